@@ -97,6 +97,54 @@ fn table_digest<P: Payload>(w: &World<P>) -> u64 {
     fnv(&s)
 }
 
+/// Everything a user can observe about the forest, for build-vs-build comparison (C17): all nine
+/// traversals from every live node and the four pretty-printer modes of every top-level tree.
+#[allow(deprecated)]
+pub fn rich_digest<P: Payload>(w: &World<P>) -> u64 {
+    use std::panic::{catch_unwind, AssertUnwindSafe};
+    let a = &w.arena;
+    let cap = w.m.live_count();
+    let mut h = table_digest(w);
+    let r = catch_unwind(AssertUnwindSafe(|| {
+        let mut s = String::new();
+        let f = |v: Vec<indextree::NodeId>| v.iter().map(|i| usize::from(*i).to_string()).collect::<Vec<_>>().join(",");
+        for slot in w.m.live_slots() {
+            let id = w.m.n[slot].id;
+            s.push_str(&f(id.ancestors(a).take(cap + 1).collect()));
+            s.push(';');
+            s.push_str(&f(id.predecessors(a).take(cap + 1).collect()));
+            s.push(';');
+            s.push_str(&f(id.preceding_siblings(a).take(cap + 1).collect()));
+            s.push(';');
+            s.push_str(&f(id.following_siblings(a).take(cap + 1).collect()));
+            s.push(';');
+            s.push_str(&f(id.children(a).take(cap + 1).collect()));
+            s.push(';');
+            s.push_str(&f(id.reverse_children(a).take(cap + 1).collect()));
+            s.push(';');
+            s.push_str(&f(id.descendants(a).take(cap + 1).collect()));
+            s.push(';');
+            s.push_str(&format!("{:?}", id.traverse(a).take(2 * cap + 1).collect::<Vec<_>>().len()));
+            s.push_str(&format!("{:?}", id.reverse_traverse(a).take(2 * cap + 1).map(|e| match e { indextree::NodeEdge::Start(i) => usize::from(i) * 2, indextree::NodeEdge::End(i) => usize::from(i) * 2 + 1 }).collect::<Vec<_>>()));
+            s.push('\n');
+            if w.m.n[slot].parent.is_none() {
+                if let Some(p) = P::pretty(a, id) {
+                    for t in p {
+                        s.push_str(&t);
+                        s.push('\u{1}');
+                    }
+                }
+            }
+        }
+        s
+    }));
+    match r {
+        Ok(s) => h = splitmix(h ^ fnv(&s)),
+        Err(_) => h = splitmix(h ^ 0xdead),
+    }
+    h
+}
+
 /// Interpret a history.  Stops at the first step with any failure.
 pub fn run_history<P: Payload>(ops: &[Op], prof: &Profile, cfg: &StepCfg, record: bool) -> CaseRun {
     let mut w: World<P> = World::new();
@@ -143,7 +191,21 @@ pub fn run_history_on<P: Payload>(w: &mut World<P>, ops: &[Op], prof: &Profile, 
         if so.outcome.starts_with("err") || so.outcome == "panic" {
             failed_seen = true;
         }
-        dig = splitmix(dig ^ fnv(&so.desc) ^ fnv(&so.outcome).rotate_left(17));
+        dig = splitmix(dig ^ fnv(&so.desc) ^ fnv(&so.outcome).rotate_left(17) ^ fnv(&so.detail).rotate_left(31));
+        if prof.name == "C17" && (i % 4 == 3 || i + 1 == ops.len()) {
+            dig = splitmix(dig ^ rich_digest(w));
+            run.evals += 1;
+            if let Some(r) = P::par_check(&w.arena) {
+                run.evals += 1;
+                if let Err(msg) = r {
+                    run.fail = Some((i, vec![Failure::new(&["C17"], "par_iter/differs", msg)], None));
+                    break;
+                }
+            }
+            if so.outcome.starts_with("err") && w.m.n.iter().any(|m| m.recycles > 0) {
+                run.nt.push(("C17", fnv(&format!("c17|{}|{}", so.class, w.m.shape()))));
+            }
+        }
         run.nt.extend(so.nt.iter().copied());
         if let Some(c) = so.concrete {
             run.concrete.push(c);
